@@ -16,7 +16,7 @@ SYMBOLIC = False     # set while a symbolic harness runs: mutable buffers become
 
 
 def is_sym(x):
-    return isinstance(x, (SymInt, SymBool, SymBuf, SymStr, core.SymQuot, core.SymScaled)) or hasattr(type(x), 'sym_len')
+    return isinstance(x, (SymInt, SymBool, SymBuf, SymStr, SymChars, core.SymQuot, core.SymScaled)) or hasattr(type(x), 'sym_len')
 
 
 # --------------------------------------------------------------------------- byte containers
@@ -225,6 +225,15 @@ class SymStr:
                     s = str(int(p.v))
                     if out and isinstance(out[-1], str): out[-1] += s
                     else: out.append(s)
+            elif isinstance(p, Chars):
+                if p.items: out.append(p)
+            elif isinstance(p, SymChars):
+                q = _chars_piece(p)
+                if isinstance(q, str):
+                    if q:
+                        if out and isinstance(out[-1], str): out[-1] += q
+                        else: out.append(q)
+                else: out.append(q)
             elif isinstance(p, SymStr):
                 for q in p.pieces:
                     if isinstance(q, str) and out and isinstance(out[-1], str): out[-1] += q
@@ -353,7 +362,7 @@ class SymStr:
 
 def m_str(x=''):
     if isinstance(x, SymInt): return SymStr([Dec(x)])
-    if isinstance(x, SymStr): return x
+    if isinstance(x, (SymStr, SymChars)): return x
     if isinstance(x, SymBool): raise Unsupported('str of symbolic bool')
     if not isinstance(x, (str, int, float, bytes, tuple, list, dict, type(None), type)) and type(x).__str__ is not object.__str__:
         return type(x).__str__(x)
@@ -364,6 +373,9 @@ def m_int(x=0, *a):
     if isinstance(x, SymInt): return x
     if isinstance(x, core.SymQuot): return x.trunc()
     if isinstance(x, SymBool): return lift(x)
+    if isinstance(x, SymChars):
+        if a: raise Unsupported('int(symbolic text, base)')
+        return x.to_int()
     if isinstance(x, SymStr):
         if a: raise Unsupported('int(symbolic str, base)')
         c = x.concrete()
@@ -384,7 +396,7 @@ def m_join(sep, it):
             if k: out += list(sep)
             out += _raw_items(x)
         return SymBuf(out, 'bytes', 'B')
-    if not any(isinstance(x, SymStr) for x in items): return sep.join(items)
+    if not any(isinstance(x, (SymStr, SymChars)) for x in items): return sep.join(items)
     ps = []
     for k, x in enumerate(items):
         if k: ps.append(sep)
@@ -547,14 +559,14 @@ def m_len(x):
 
 
 def m_type(*a):
-    if len(a) == 1 and isinstance(a[0], (SymBuf, SymStr)): return a[0].real_type()
+    if len(a) == 1 and isinstance(a[0], (SymBuf, SymStr, SymChars)): return a[0].real_type()
     if len(a) == 1 and isinstance(a[0], SymInt): return int
     if len(a) == 1 and isinstance(a[0], SymBool): return bool
     return type(*a)
 
 
 def m_isinstance(x, t):
-    if isinstance(x, (SymBuf, SymStr)):
+    if isinstance(x, (SymBuf, SymStr, SymChars)):
         return issubclass(x.real_type(), t)
     if isinstance(x, SymInt): return issubclass(int, t)
     if isinstance(x, SymBool): return issubclass(bool, t)
@@ -811,20 +823,45 @@ class SymFile:
     def __init__(self, items=()):
         self.items = list(items); self.pos = 0; self.closed = False
 
+    def _conc_upto(self, n, limit):
+        """n if n < limit (case split over the values), else `limit` meaning 'at least limit'"""
+        if not isinstance(n, SymInt) or n.conc() is not None: 
+            n = int(n); return n if n < limit else limit
+        r = n >= limit
+        if r is True or (r is not False and bool(r)): return limit
+        for v in range(0, limit - 1):
+            q = core.eq(n, v)
+            if q is True or (q is not False and bool(q)): return v
+        return limit - 1
+
     def read(self, n=-1):
-        if isinstance(n, SymInt): n = n.__index__()
-        if n is None or n < 0: n = len(self.items) - self.pos
+        if n is None or (isinstance(n, int) and n < 0): n = len(self.items)
+        if isinstance(n, SymInt):
+            lt = n < 0
+            if lt is True or (lt is not False and bool(lt)): n = len(self.items)
+        rem = max(0, len(self.items) - self.pos)
+        n = self._conc_upto(n, rem) if rem else 0
         out = self.items[self.pos:self.pos + n] if self.pos < len(self.items) else []
         self.pos += len(out)
         return SymBuf(out, 'bytes', 'B')
 
     def seek(self, off, whence=0):
-        if isinstance(off, SymInt): off = off.__index__()
         if whence == 0:
+            if isinstance(off, SymInt): off = off.__index__()
             if off < 0: raise ValueError('negative seek value %d' % off)
             self.pos = off
-        elif whence == 1: self.pos = max(0, self.pos + off)
-        else: self.pos = max(0, len(self.items) + off)
+        elif whence == 1:
+            rem = max(0, len(self.items) - self.pos)
+            if isinstance(off, SymInt) and off.conc() is None:
+                lt = off < 0
+                if lt is True or (lt is not False and bool(lt)): raise Unsupported('negative symbolic relative seek')
+                k = self._conc_upto(off, rem + 1)      # rem+1 == somewhere beyond the end
+                self.pos = self.pos + k
+            else:
+                self.pos = max(0, self.pos + int(off))
+        else:
+            if isinstance(off, SymInt): off = off.__index__()
+            self.pos = max(0, len(self.items) + off)
         return self.pos
 
     def tell(self): return self.pos
@@ -838,3 +875,145 @@ class SymFile:
 
     def flush(self): pass
     def close(self): self.closed = True
+
+
+# --------------------------------------------------------------------------- per-character symbolic text (arbitrary octets)
+_WS = (9, 10, 11, 12, 13, 28, 29, 30, 31, 32)
+
+
+def _is_ws(c):
+    if isinstance(c, int): return c in _WS
+    return core.bor(core.band(c >= 9, c <= 13), core.band(c >= 28, c <= 32))
+
+
+def _decide(b):
+    return b if isinstance(b, bool) else bool(b)
+
+
+class SymChars:
+    """bytes / str proxy made of per-character ints|SymInts with concrete length. Domain: after decode()
+    every character is ASCII (an octet >= 0x80 that cannot start a UTF-8 sequence raises UnicodeDecodeError;
+    octets 0xC2..0xF4, which may start a valid multi-byte sequence, are excluded by an explicit assumption
+    recorded in the harness notes)."""
+
+    def __init__(self, items, isbytes=True):
+        self.items = list(items); self.isbytes = isbytes
+
+    def real_type(self): return bytes if self.isbytes else str
+    def __len__(self): return len(self.items)
+    def __repr__(self): return '<SymChars %s len=%d>' % ('bytes' if self.isbytes else 'str', len(self.items))
+    __hash__ = None
+
+    def concrete(self):
+        if any(isinstance(c, SymInt) and c.conc() is None for c in self.items): return None
+        s = bytes(int(c) for c in self.items)
+        return s if self.isbytes else s.decode('latin1')
+
+    def decode(self, *a, **k):
+        if not self.isbytes: raise AttributeError('decode')
+        for i, c in enumerate(self.items):
+            hi = c >= 0x80
+            if hi is False: continue
+            if _decide(hi):
+                bad = core.bor(c <= 0xC1, c >= 0xF5)          # continuation octet or invalid lead octet: never valid here
+                if not _decide(bad):
+                    core.CUR.note('octet 0xC2..0xF4 at %d: possible multi-byte UTF-8, outside the encoded domain' % i)
+                    raise core.PathAbort()
+                raise UnicodeDecodeError('utf-8', b'', i, i + 1, 'invalid start byte')
+        return SymChars(self.items, False)
+
+    def encode(self, *a): return SymChars(self.items, True)
+
+    def _lit(self, s):
+        if isinstance(s, (bytes, bytearray)): return list(s)
+        return [ord(ch) for ch in s]
+
+    def startswith(self, p):
+        p = self._lit(p)
+        if len(p) > len(self.items): return False
+        return core.band(*[core.eq(a, b) for a, b in zip(self.items, p)]) if p else True
+
+    def _eq(self, o):
+        if isinstance(o, (str, bytes, bytearray)):
+            p = self._lit(o)
+            if len(p) != len(self.items): return False
+            return core.band(*[core.eq(a, b) for a, b in zip(self.items, p)]) if p else True
+        if isinstance(o, SymChars):
+            if len(o.items) != len(self.items): return False
+            return core.band(*[core.eq(a, b) for a, b in zip(self.items, o.items)]) if self.items else True
+        return NotImplemented
+
+    def __eq__(self, o): return self._eq(o)
+    def __ne__(self, o):
+        r = self._eq(o)
+        return r if r is NotImplemented else bnot(r)
+
+    def __getitem__(self, k):
+        if isinstance(k, slice): return SymChars(self.items[k], self.isbytes)
+        c = self.items[k]
+        return c if self.isbytes else SymChars([c], False)
+
+    def strip(self, chars=None):
+        it = list(self.items)
+        test = _is_ws if chars is None else (lambda c, cs=self._lit(chars): core.bor(*[core.eq(c, x) for x in cs]))
+        while it and _decide(test(it[0])): it.pop(0)
+        while it and _decide(test(it[-1])): it.pop()
+        return SymChars(it, self.isbytes)
+
+    def split(self, sep=None, maxsplit=-1):
+        if sep is None or maxsplit != -1 or len(sep) != 1: raise Unsupported('split(%r) on symbolic text' % (sep,))
+        s = self._lit(sep)[0]
+        out = [[]]
+        for c in self.items:
+            if _decide(core.eq(c, s)): out.append([])
+            else: out[-1].append(c)
+        res = []
+        for it in out:
+            t = SymChars(it, self.isbytes)
+            cc = t.concrete()
+            res.append(cc if cc is not None else t)
+        return res
+
+    def __add__(self, o):
+        if isinstance(o, (str, bytes, SymChars, SymStr)): return SymStr([_chars_piece(self), o if not isinstance(o, SymChars) else _chars_piece(o)], self.isbytes)
+        return NotImplemented
+
+    def __radd__(self, o):
+        if isinstance(o, (str, bytes)): return SymStr([o, _chars_piece(self)], self.isbytes)
+        return NotImplemented
+
+    def to_int(self):
+        """model of int(str) for ASCII text: [ws]* [+-]? digit (_? digit)* [ws]*"""
+        it = list(self.items)
+        while it and _decide(_is_ws(it[0])): it.pop(0)
+        while it and _decide(_is_ws(it[-1])): it.pop()
+        err = ValueError("invalid literal for int() with base 10")
+        if not it: raise err
+        neg = False
+        if _decide(core.eq(it[0], 45)): neg = True; it.pop(0)
+        elif _decide(core.eq(it[0], 43)): it.pop(0)
+        if not it: raise err
+        v = 0; prev_digit = False
+        for i, c in enumerate(it):
+            isd = core.band(c >= 48, c <= 57)
+            if _decide(isd):
+                d = (c - 48) if isinstance(c, int) else clamp(c - 48, 0, 9)
+                v = v * 10 + d; prev_digit = True
+            elif _decide(core.eq(c, 95)) and prev_digit and i < len(it) - 1:
+                prev_digit = False
+            else:
+                raise err
+        if not prev_digit: raise err
+        return -v if neg else v
+
+
+class Chars:
+    """rope piece: a run of symbolic characters"""
+    def __init__(self, items): self.items = list(items)
+    def __repr__(self): return 'Chars(%d)' % len(self.items)
+
+
+def _chars_piece(sc):
+    c = sc.concrete()
+    if c is not None: return c if isinstance(c, str) else c.decode('latin1')
+    return Chars(sc.items)
